@@ -114,6 +114,10 @@ def observe(mid, op):
                 out = []
                 for m in mid.play(meta_messages=True, now=ft.time):
                     out.append((ident_of(m), round(float(ft.now), 9)))
+                out.append('without meta messages')
+                t0 = ft.now
+                for m in mid.play(now=ft.time):
+                    out.append((ident_of(m), round(float(ft.now - t0), 9)))
                 return out
             finally:
                 mm.time = saved
@@ -134,6 +138,12 @@ def nested_play(mid):
             out.append((ident_of(m), round(float(ft.now), 9)))
             if k == 0:
                 mid.length
+        out.append('without meta messages')
+        t0 = ft.now
+        for k, m in enumerate(mid.play(now=ft.time)):
+            out.append((ident_of(m), round(float(ft.now - t0), 9)))
+            if k == 0:
+                mid.length
         return out
     finally:
         mm.time = saved
@@ -142,50 +152,57 @@ def nested_play(mid):
 def replay_history(hist):
     import mido
     mid = mido.MidiFile(type=1, ticks_per_beat=480)
+    # the user keeps the list of tracks it fetched once and edits through it
+    # (only assigning a new list to mid.tracks makes that reference stale)
+    held = mid.tracks
     for n, (op, a, b, c, ftype, tpb, tracks, seen) in enumerate(hist):
-        if op == 'add_track':
-            mid.add_track()
-        elif op == 'tracks_append':
-            mid.tracks.append(mido.MidiTrack([mk(a, b)]))
-        elif op == 'tracks_remove':
-            del mid.tracks[a - 1]
-        elif op == 'msg_append':
-            mid.tracks[a - 1].append(mk(b, c))
-        elif op == 'msg_insert':
-            mid.tracks[a - 1].insert(0, mk(b, c))
-        elif op == 'msg_delete':
-            del mid.tracks[a - 1][b - 1]
-        elif op == 'msg_time':
-            mid.tracks[a - 1][b - 1].time = c
-        elif op == 'msg_attr':
-            m = mid.tracks[a - 1][b - 1]
-            if m.type == 'set_tempo':
-                m.tempo = 250000 + c
-            else:
-                m.note, m.channel = c % 128, c // 128
-        elif op == 'msg_replace':
-            mid.tracks[a - 1][b - 1] = mk(mid.tracks[a - 1][b - 1].time, c)
-        elif op == 'tracks_reverse':
-            mid.tracks = list(reversed(mid.tracks))
-        elif op == 'flatten':
-            mid.tracks[:] = [mid.merged_track]
-        elif op == 'track_double':
-            mid.tracks[a - 1] = mid.tracks[a - 1] * 2
-        elif op == 'track_slice':
-            mid.tracks[a - 1] = mid.tracks[a - 1][1:]
-            if type(mid.tracks[a - 1]) is not mido.MidiTrack:
-                return 'slice-type', 'step %d: a slice of a MidiTrack is a %s' % (n, type(mid.tracks[a - 1]).__name__)
-        elif op == 'track_name':
-            mid.tracks[a - 1].name = 'a name'
-            if mid.tracks[a - 1].name == '':
-                return 'track-name', 'step %d: name not set' % n
-        elif op == 'msg_swap':
-            x, y = mid.tracks[a - 1][b - 1], mid.tracks[a - 1][b]
-            x.time, y.time = y.time, x.time
-        elif op == 'set_tpb':
-            mid.ticks_per_beat = a
-        elif op == 'set_type':
-            mid.type = a
+        try:
+            if op == 'add_track':
+                mid.add_track()
+            elif op == 'tracks_append':
+                held.append(mido.MidiTrack([mk(a, b)]))
+            elif op == 'tracks_remove':
+                del held[a - 1]
+            elif op == 'msg_append':
+                held[a - 1].append(mk(b, c))
+            elif op == 'msg_insert':
+                mid.tracks[a - 1].insert(0, mk(b, c))
+            elif op == 'msg_delete':
+                del mid.tracks[a - 1][b - 1]
+            elif op == 'msg_time':
+                mid.tracks[a - 1][b - 1].time = c
+            elif op == 'msg_attr':
+                m = mid.tracks[a - 1][b - 1]
+                if m.type == 'set_tempo':
+                    m.tempo = 250000 + c
+                else:
+                    m.note, m.channel = c % 128, c // 128
+            elif op == 'msg_replace':
+                mid.tracks[a - 1][b - 1] = mk(mid.tracks[a - 1][b - 1].time, c)
+            elif op == 'tracks_reverse':
+                mid.tracks = list(reversed(mid.tracks))
+                held = mid.tracks
+            elif op == 'flatten':
+                held[:] = [mid.merged_track]
+            elif op == 'track_double':
+                held[a - 1] = held[a - 1] * 2
+            elif op == 'track_slice':
+                mid.tracks[a - 1] = mid.tracks[a - 1][1:]
+                if type(mid.tracks[a - 1]) is not mido.MidiTrack:
+                    return 'slice-type', 'step %d: a slice of a MidiTrack is a %s' % (n, type(mid.tracks[a - 1]).__name__)
+            elif op == 'track_name':
+                mid.tracks[a - 1].name = 'a name'
+                if mid.tracks[a - 1].name == '':
+                    return 'track-name', 'step %d: name not set' % n
+            elif op == 'msg_swap':
+                x, y = mid.tracks[a - 1][b - 1], mid.tracks[a - 1][b]
+                x.time, y.time = y.time, x.time
+            elif op == 'set_tpb':
+                mid.ticks_per_beat = a
+            elif op == 'set_type':
+                mid.type = a
+        except Exception as e:
+            return 'edit-raises/' + op, 'step %d (%s): %r (history %s)' % (n, op, e, ' '.join(h[0] for h in hist[:n + 1]))
         # the live contents are what the specification says they are
         live = [[(m.time, ident_of(m)) for m in t] for t in mid.tracks]
         if live != tracks or mid.type != ftype or mid.ticks_per_beat != tpb:
@@ -281,4 +298,4 @@ def run(ctx):
     ctx.exhaustive = True
     ctx.constants = {'plans': plans}
     ctx.assumptions += ['observations are compared with a freshly built MidiFile of identical contents and with the specification value (merge order)',
-                        'play() is observed on a virtual clock with meta_messages=True']
+                        'play() is observed on a virtual clock, with and without meta messages']
